@@ -464,9 +464,14 @@ def pearsonr(X, Y, Z, data, boolean=True, **kwargs):
     else:
         # Regress on Z with an intercept term, otherwise the residuals depend on
         # the location of the variables.
-        Z_design = np.column_stack(
-            [np.ones(data.shape[0]), data.loc[:, Z].to_numpy(dtype=float)]
-        )
+        # Center and scale the columns of Z first: the fitted residuals do not depend
+        # on the units of Z, but lstsq discards directions of an unscaled design
+        # matrix whose columns differ by many orders of magnitude.
+        Z_values = data.loc[:, Z].to_numpy(dtype=float)
+        Z_values = Z_values - Z_values.mean(axis=0)
+        Z_scale = np.sqrt((Z_values**2).mean(axis=0))
+        Z_scale[Z_scale == 0] = 1.0
+        Z_design = np.column_stack([np.ones(data.shape[0]), Z_values / Z_scale])
         X_coef = np.linalg.lstsq(Z_design, data.loc[:, X], rcond=None)[0]
         Y_coef = np.linalg.lstsq(Z_design, data.loc[:, Y], rcond=None)[0]
 
